@@ -137,6 +137,12 @@ def check_case(case):
                     continue
                 pq = sign(partner["charge"])
                 if partner["type"] == "ION":
+                    # formal charge of the ion from the harness's own table (chemistry of the residue name)
+                    formal = gen.ION_CHARGE.get(partner["resname"].strip())
+                    if formal is not None and formal != partner["charge"]:
+                        bad("ion-formal-charge", "ion %s (%s) carries charge %r, formal charge %+d" % (
+                            lab, partner["resname"].strip(), partner["charge"], formal))
+                        continue
                     classes.add("ion:" + partner["resname"].strip())
                     if val * pq > eps:         # a positive ion lowers every pKa, a negative one raises it
                         bad("ion-sign", "ion %s (charge %+d) gives %r" % (lab, pq, val))
